@@ -44,6 +44,16 @@ Theorem C09_seats_never_over_committed : forall A S (ZL : zlike A S) cfg,
 Proof. exact count_seats. Qed.
 Print Assumptions C09_seats_never_over_committed.
 
+(* ... and no recorded snapshot shows more than [seats] winners either ([ssn sn] = (id, status, pending) of every candidate in
+   snapshot sn; nel_sts counts the elected ones) *)
+Theorem C09_seats_never_over_committed_in_any_snapshot : forall A S (ZL : zlike A S) cfg,
+  cf_method cfg = MWigm -> exact A = false -> 0 <= cf_nballots cfg -> 0 <= cf_nseats cfg ->
+  forall r pr fuel s, seat_rule r -> wf_profile pr -> cf_nballots cfg = ballot_total pr ->
+  exec (@crashed A) fuel (count_cmd A cfg r) (init_state A cfg pr) = Some (s, Next) ->
+  Forall (fun sn => nel_sts (ssn A sn) <= cf_nseats cfg) (snaps A (actions s)).
+Proof. exact count_seats_every_snapshot. Qed.
+Print Assumptions C09_seats_never_over_committed_in_any_snapshot.
+
 (* what "forward" allows, spelled out *)
 Example C09_forward_relation :
   fwd (Hopeful, None) (Elected, Some true) /\ fwd (Elected, Some true) (Elected, Some false) /\
